@@ -195,6 +195,9 @@ def run_custom(ctx, histories, wire_schema):
         if not a.get("same"):
             ctx.fail("corr:printTA:first-model", "the two models of the printer (printSchemaTA / printSchema) differ", detail,
                      kind="correspondence")
+        if a.get("buildErased") is False:
+            ctx.fail("corr:printTA:buildIgnoresCustom", "the builder model gives different results for the denoted document and for the "
+                     "document without its applied custom directives (BuildIgnoresCustomStatement evaluated)", detail, kind="correspondence")
         if o["include_descriptions"]:
             n_desc += 1
             if a.get("wf"):
